@@ -36,6 +36,9 @@ type c08Ctx struct {
 	samples  []string
 	fr       *c08FrameRunner
 	errCache map[string]string
+	// admitFail: the last c08ParseOne call ended in a ParseType refusal that the admission
+	// model (c08_admit_test.go) reported as a violation
+	admitFail bool
 }
 
 func (c *c08Ctx) outcome(s string) {
